@@ -41,6 +41,7 @@ def replay_link(mode, stream, cut, acts, delivered, polls):
     import mido.ports as mp
     from mido.sockets import SocketPort
     a, b = socket.socketpair()
+    a.settimeout(8.0)         # a read that would block for ever raises instead
     port = None
     state = {'pos': 0, 'group': 0, 'sleeps': 0}
     groups = [list(g) for g in acts]
@@ -215,6 +216,7 @@ def check_close_seen_by_peer():
     out = []
     for pre_send in (False, True):
         a, b = socket.socketpair()
+        a.settimeout(8.0)
         port = SocketPort('peer', 1, conn=a)
         try:
             if pre_send:
@@ -296,6 +298,7 @@ def check_poll_never_waits_big():
     out = []
     for nbytes in (1024, 2048, 1000, 6000):
         a, b = socket.socketpair()
+        a.settimeout(8.0)
         port = SocketPort('peer', 1, conn=a)
         try:
             b.sendall(bytes([0xc0, 5] * (nbytes // 2)))
@@ -346,6 +349,8 @@ def check_two_connections_interleaved():
     out = []
     a1, a2 = socket.socketpair()
     b1, b2 = socket.socketpair()
+    a1.settimeout(8.0)
+    b1.settimeout(8.0)
     pa, pb = SocketPort('peer', 1, conn=a1), SocketPort('peer', 2, conn=b1)
     try:
         got = {'a': [], 'b': []}
@@ -383,6 +388,8 @@ def check_multi_member_burst(n=100):
     out = []
     a1, a2 = socket.socketpair()
     b1, b2 = socket.socketpair()
+    a1.settimeout(8.0)
+    b1.settimeout(8.0)
     pa, pb = SocketPort('peer', 1, conn=a1), SocketPort('peer', 2, conn=b1)
     multi = mp.MultiPort([pa, pb])
     try:
@@ -414,6 +421,73 @@ def check_multi_member_burst(n=100):
             except Exception:
                 pass
     return out
+
+
+def check_send_to_dead_peer():
+    """Real TCP on the loopback interface: the peer goes away and the port only ever
+    sends.  The write fails (OSError), the port closes itself - releasing the socket
+    once -, further sends raise ValueError and close() stays harmless."""
+    import time
+    import mido
+    from mido.sockets import PortServer, connect
+    out = []
+    server = None
+    try:
+        try:
+            server = PortServer('127.0.0.1', 0)
+        except OSError as e:
+            return out, 'skipped: cannot bind loopback (%r)' % (e,)
+        client = connect('127.0.0.1', server._socket.getsockname()[1])
+        sp = server.accept()
+        client.close()
+        client._rfile.close()
+        client._wfile.close()
+        time.sleep(0.02)
+        seen = []
+        for k in range(60):
+            try:
+                sp.send(mido.Message('note_on', note=k))
+                seen.append('ok')
+            except OSError as e:
+                seen.append('OSError')
+            except ValueError:
+                seen.append('ValueError')
+                break
+            except Exception as e:
+                seen.append(type(e).__name__)
+                break
+            time.sleep(0.002)
+        if 'OSError' not in seen or seen[-1] != 'ValueError' or not sp.closed:
+            out.append(('dead-peer/send-sequence', {'kind': 'deadpeer'},
+                        'sends to a disconnected peer ended %r, closed=%r (expected ok..., OSError, then ValueError on a closed port)' % (
+                            seen[-6:], sp.closed)))
+        try:
+            sp.close()
+            sp.close()
+        except Exception as e:
+            out.append(('dead-peer/close-raises', {'kind': 'deadpeer'}, 'close() after the failed send raised %r' % (e,)))
+        try:
+            fd = sp._socket.fileno()
+        except Exception:
+            fd = -1
+        if fd != -1:
+            out.append(('dead-peer/socket-not-released', {'kind': 'deadpeer'}, 'the socket is still open (fd %d)' % fd))
+        try:
+            server.close()
+            if server._socket.fileno() != -1:
+                out.append(('dead-peer/server-socket-not-released', {'kind': 'deadpeer'}, 'listening socket still open'))
+        except Exception as e:
+            out.append(('dead-peer/server-close-raises', {'kind': 'deadpeer'}, repr(e)))
+        return out, None
+    except Exception as e:
+        out.append(('dead-peer/raises/%s' % type(e).__name__, {'kind': 'deadpeer'}, repr(e)))
+        return out, None
+    finally:
+        try:
+            if server is not None:
+                server._socket.close()
+        except Exception:
+            pass
 
 
 def check_server(n_per_client=3):
@@ -565,6 +639,9 @@ def replay(case):
     if k == 'server':
         v, skip = check_server()
         return v and v[0][2]
+    if k == 'deadpeer':
+        v, skip = check_send_to_dead_peer()
+        return v and v[0][2]
     if k == 'twoconn':
         v = check_two_connections_interleaved()
         return v and v[0][2]
@@ -621,6 +698,12 @@ CHECK_DEADLOCK FALSE
     for key, case, msg in check_two_connections_interleaved() + check_multi_member_burst(100) + check_multi_member_burst(3):
         ctx.violation('socket/' + key, case, msg)
     ctx.replayed += 3
+    v, skipped = check_send_to_dead_peer()
+    ctx.replayed += 1
+    if skipped:
+        ctx.observations.append(skipped)
+    for key, case, msg in v:
+        ctx.violation('socket/' + key, case, msg)
     for key, case, msg in check_poll_never_waits_big():
         ctx.violation('socket/' + key, case, msg)
     v, skipped = check_server()
